@@ -63,7 +63,7 @@ CHECKS = {
         level="fault_enumeration",
         technique="exhaustive crash-point / single-fault enumeration on file contents fed to the real load_one/load_many (recording LineIterator, watchdog)",
         text="Every line-boundary truncation of every generated file and of every corpus file up to 300 (quick) / 3000 (thorough) lines (larger: every n-th line, cap recorded), every byte truncation of small generated files, "
-        "every single-line delete/duplicate/swap, every single-token substitution from an 8-entry menu, empty/binary/foreign content, explicit fmt= for every module; load_one and load_many (exhausted; closed and dropped after 0, 1, 2 requested frames).",
+        "every single-line delete/duplicate/swap, every single-token substitution from an 11-entry menu (incl. counters off by one and integers beyond 64 bits; on long files every integer token), first/middle/last row deleted from every table of long files, empty/binary/foreign content, explicit fmt= for every module; load_one and load_many (exhausted; closed and dropped after 0, 1, 2 requested frames).",
         note="outcome must be consistent objects or LoadError naming the file with lineno equal to the iterator position; handles closed; watchdog max(20 s, 30x baseline)",
         design="DESIGN.md §2 C07",
     ),
